@@ -586,6 +586,15 @@ impl<'a> FamVisitor for RVisit<'a> {
             // not allocate beyond the limit -- also when the caller touches the limit again before it goes on reading.
             reader.set_max_len(limit as u32);
             for k in 0..3 {
+                // the desynchronised reader will take the next four bytes of the stream for a length: keep a MUTATED tree
+                // (one that sizes its buffer before checking the limit) from being asked for gigabytes
+                {
+                    let c = core.borrow();
+                    let rest = &c.data[c.pos.min(c.data.len())..];
+                    if rest.len() >= 4 && u32::from_be_bytes([rest[0], rest[1], rest[2], rest[3]]) > (32 << 20) {
+                        break;
+                    }
+                }
                 crate::alloc::arm();
                 let raw = reader.read::<F::Of<'_>>();
                 let stats = crate::alloc::disarm();
